@@ -51,6 +51,17 @@ func (f F) LogProb(x float64) float64 {
 	if x < 0 {
 		return math.Inf(-1)
 	}
+	if x == 0 {
+		// The limit of the density at the end of the support.
+		switch {
+		case f.D1 < 2:
+			return math.Inf(1)
+		case f.D1 == 2:
+			return 0
+		default:
+			return math.Inf(-1)
+		}
+	}
 	return 0.5*(f.D1*math.Log(f.D1*x)+f.D2*math.Log(f.D2)-(f.D1+f.D2)*math.Log(f.D1*x+f.D2)) - math.Log(x) - mathext.Lbeta(f.D1/2, f.D2/2)
 }
 
